@@ -84,6 +84,11 @@ func ExtActions(thorough bool) []*wire.N {
 		s.SetS("Field", Oxm(in, false, int(in.Field), 0))
 		out = append(out, s)
 		if in.Maskable {
+			// a set-field whose field carries a mask (OpenFlow 1.5 allows it, the constructor takes any
+			// field): sized and framed like any other
+			ms := Action("act_set_field", int(in.Field)+5)
+			ms.SetS("Field", Oxm(in, true, int(in.Field)+5, 0))
+			out = append(out, ms)
 			r := Action("nx_reg_load2", int(in.Field))
 			r.SetS("DstField", Oxm(in, true, int(in.Field), 0))
 			out = append(out, r)
